@@ -182,6 +182,11 @@ fn c09() {
             jobs.push(Job { harness: "c09", cfg: json!({"cap": cap, "p": 2, "n": 2, "early_permits": early, "pb": pb}) });
         }
     }
+    // free-running writer: overflow events interleave with the writer's pops, flushes and reports
+    for (cap, n) in [(1u64, 2u64), (1, 3), (2, 3)] {
+        jobs.push(Job { harness: "c09", cfg: json!({"cap": cap, "p": 1, "n": n, "free": true, "pb": pb}) });
+    }
+    jobs.push(Job { harness: "c09", cfg: json!({"cap": 1, "p": 2, "n": 1, "free": true, "pb": pb}) });
     if tier == Tier::Thorough {
         jobs.push(Job { harness: "c09", cfg: json!({"cap": 2, "p": 2, "n": 3, "early_permits": 1, "pb": 2}) });
         jobs.push(Job { harness: "c09", cfg: json!({"cap": 1, "p": 3, "n": 1, "early_permits": 0, "pb": pb}) });
